@@ -14,6 +14,7 @@ F_CACHE = "C13-dropseries-filtercache"
 F_KEYS = "C13-dropseries-tagkeys"
 F_CROSS = "C13-stale-deleted-set"
 F_PURGE = "C13-purge-loses-live-items"
+F_CRASH = "C13-drop-lost-on-crash"
 LISTING = {"show-series", "show-series-where", "show-tag-values", "tv-where-eq", "tv-where-eq-y", "tv-where-neq", "tv-where-re",
            "tv-where-nre", "tv-where-host-neq", "tv-keyre-where", "tv-in-where", "tk-where-host", "tk-where-region",
            "ss-where-neq", "ss-where-re", "ss-where-nre", "ss-where-region"}
@@ -104,6 +105,11 @@ def pred_coq(p, it):
     raise ValueError(k)
 
 
+def drop2_lost(h):
+    return any(st["phase"] == "after-crash" and any((not o["ok"]) and o.get("extra") == "dropped-only" for o in st["obs"])
+               for st in h["steps"])
+
+
 def sorts_after(m, m2):
     """measurement m2's items follow m's in the tag->ids namespace: composite key = varint(len(name)) + name"""
     return (len(m2), m2.encode()) > (len(m), m.encode())
@@ -175,6 +181,13 @@ def case_coq(h, later):
     for ph in ("after-writes", "after-flush", "after-restart"):
         if ph in steps:
             reads(steps[ph])
+    if h.get("drop2") and "after-crash" in steps:
+        d2 = h["drop2"]
+        # if the answers after the crash are "expected + the series the second drop named", the model is run WITHOUT that drop:
+        # it then has to reproduce every series set, i.e. the drop must be lost entirely and consistently
+        if not drop2_lost(h):
+            ops.append("KDropSeries %d %s" % (it.str(d2["mst"]), pred_coq(d2["pred"], it)))
+        reads(steps["after-crash"])
     host = it.str("host")
     am = ["(%d, %d)" % (P_OR, it.str("a")), "(%d, %d)" % (P_OR, it.str("b")), "(%d, %d)" % (P_LIT, it.str("a")),
           "(%d, %d)" % (P_RXY, it.str("x")), "(%d, %d)" % (P_RXY, it.str("y")), "(%d, %d)" % (P_RX, it.str("x"))]
@@ -228,6 +241,8 @@ def main(ck):
     srv = ck.go_build_repo("./app/ts-server", "ts-server")
     if not binp or not srv:
         return
+    what_cross = ("a listing in a database without any DROP SERIES misses series after DROP SERIES in ANOTHER database (stale deleted set "
+                  "in the pooled index search)")
     # ---- physical purge of dropped series (in-process; the server runs it hourly)
     purgeb = ck.go_build("./cmd/c13purge", "c13purge")
     purge = None
@@ -241,7 +256,15 @@ def main(ck):
         else:
             ck.cov["purge"] = purge
             lost = purge["key_no_longer_resolves"] or purge["not_found_by_own_tag_filter"] or purge["missing_from_shared_tag_filters"]
-            hidden_ok = purge["count_after_drop"] == purge["expected_after"] == purge["count_after_purge"] and purge["count_before"] == purge["series"]
+            hidden_ok = (purge["count_after_drop"] == purge["expected_after"] == purge["count_after_purge"] == purge["count_after_reopen"]
+                         and purge["count_before"] == purge["series"] and not purge["dropped_reappeared_after_reopen"])
+            if purge.get("cross_index_leak"):
+                if ck.match_finding(F_CROSS):
+                    ck.known_finding(F_CROSS, what_cross)
+                else:
+                    ck.violation({"kind": "direct-oracle", "what": "a listing on one index misses series after a select on ANOTHER index "
+                                  "that has dropped series (pooled search object keeps a deleted set)", "witness": purge["cross_index_leak"],
+                                  "rerun": "harness/cmd/c13purge (in-process, deterministic)"})
             if not hidden_ok:
                 ck.violation({"kind": "direct-oracle", "what": "series counts around the purge of dropped series are wrong", "purge": purge})
             elif lost:
@@ -323,12 +346,13 @@ def main(ck):
         open(os.path.join(ck.verif, "work", "c13dev", "rendered.txt"), "w").write("\n".join(rendered))
         open(os.path.join(ck.verif, "work", "c13dev", "hs.json"), "w").write(json.dumps(hs))
     # ---- verdicts
-    stale = {F_PATHS, F_ALT, F_CACHE, F_KEYS, F_CROSS}
+    stale = {F_PATHS, F_ALT, F_CACHE, F_KEYS, F_CROSS, F_CRASH}
     what = {F_PATHS: "after DROP SERIES, reads that start from all series of the measurement (plain select, field filter, group by, "
                      "aggregates, != / ='' / !~ filters) still return the dropped series when another measurement sorts after it in the index",
             F_ALT: "after DROP SERIES, a regex tag filter translated into alternatives (host =~ /a|b/) still returns the dropped series",
             F_CACHE: "after DROP SERIES, a tag filter evaluated before the drop is answered from the tag-filter cache for some seconds",
             F_KEYS: "after DROP SERIES, SHOW TAG KEYS still lists tag keys that only dropped series carried (schema-based listing)",
+            F_CRASH: "a DROP SERIES that was acknowledged right before a kill -9 is undone by the crash (the dropped series is back after the restart)",
             F_CROSS: "a listing in a database without any DROP SERIES misses series after DROP SERIES in ANOTHER database (stale deleted set "
                      "in the pooled index search; series ids of databases created close in time collide)"}
     nontriv = set()
@@ -358,7 +382,10 @@ def main(ck):
                 failed = True
                 fid = None
                 after = st["phase"] not in ("before", "right-before-drop")
-                if after and d["kind"] == "series" and d["n"] > 0 and o["mst"] == d["mst"] and o.get("extra") == "dropped-only" and corr_ok:
+                if st["phase"] == "after-crash":
+                    if h.get("drop2") and o["mst"] == h["drop2"]["mst"] and o.get("extra") == "dropped-only" and corr_ok:
+                        fid = F_CRASH
+                elif after and d["kind"] == "series" and d["n"] > 0 and o["mst"] == d["mst"] and o.get("extra") == "dropped-only" and corr_ok:
                     if o["shape"] in ALL_BASED and later:
                         fid = F_PATHS
                     elif o["shape"] == "tag-re-alternation":
@@ -367,10 +394,14 @@ def main(ck):
                         fid = F_CACHE
                     elif o["shape"] == "show-tag-keys":
                         fid = F_KEYS
+                if fid is None and o["shape"] == "show-tag-keys" and after and corr_ok and not o.get("err") \
+                        and (d["kind"] == "series" or h.get("drop2")) and set(o["want"]) <= set(o["rows"]) \
+                        and set(o["rows"]) - set(o["want"]) <= {k for sk in h["series"] if sk["mst"] == o["mst"] for k in sk["tags"]}:
+                    fid = F_KEYS       # schema-based: keys that only dropped series (of either drop) carried
                 if fid is None and o["shape"] in LISTING and d["kind"] != "series" and others_dropped and not o.get("err") \
                         and set(o["rows"]) < set(o["want"]):
                     fid = F_CROSS
-                if fid and ck.match_finding(fid):
+                if fid and fragment_finding(ck, fid):
                     stale.discard(fid)
                     ck.known_finding(fid, what[fid])
                 else:
@@ -407,7 +438,7 @@ def main(ck):
     ck.cov["shape_histogram"] = shapes
     ck.cov["transient_wrong_answers"] = transient[:20]
     ck.cov["oracle_failures_outside_every_signature"] = nviol
-    ck.cov["open_findings_not_reproduced"] = sorted(s for s in stale if ck.match_finding(s))
+    ck.cov["open_findings_not_reproduced"] = sorted(s for s in stale if fragment_finding(ck, s))
     ck.cov["samples"] = [{k: h[k] for k in ("msts", "series", "drop", "w3")} for h in hs[:2]]
     if transient:
         ck.notes.append("%d read(s) gave a wrong answer once and the right one on the immediate retry (see coverage.transient_wrong_answers)" % len(transient))
